@@ -99,6 +99,10 @@ type Step struct {
 	// legitimately differs from TCP (the model implements the TCP behaviour). On the unix
 	// transport the kernel is compared with this string and the difference is listed as a fact.
 	UnixKernel string
+	// UnixBoth, when set, is the answer both the model and the real kernel must give on the
+	// AF_UNIX transport where AF_UNIX legitimately differs from TCP and the model implements the
+	// difference (e.g. HUP on the surviving end as soon as the peer closed its descriptor).
+	UnixBoth string
 	// Gap marks a step where the model is known to disagree with the real kernel
 	// (expected_mismatch): reported as KNOWN-MODEL-GAP, not counted as a mismatch.
 	Gap string
@@ -113,6 +117,9 @@ func (s Step) Want(class string) Step { s.Expect = class; return s }
 
 // OnUnix documents the real kernel's AF_UNIX answer where it differs from TCP.
 func (s Step) OnUnix(class string) Step { s.UnixKernel = class; return s }
+
+// BothOnUnix sets the result class both worlds must produce on the AF_UNIX transport.
+func (s Step) BothOnUnix(class string) Step { s.UnixBoth = class; return s }
 
 // KnownGap marks an expected model/kernel disagreement.
 func (s Step) KnownGap(transport, why string) Step { s.GapOn = transport; s.Gap = why; return s }
